@@ -21,7 +21,12 @@ TRUSTED = CC.TRUSTED_COMMON + [
     "inside the callback, and replays the cache to the new listener); reactions are scripted per nesting depth",
 ]
 ASSUMPTIONS = [
-    "datagrams reach RecordManager.async_updates_from_response directly (the listener's duplicate-packet guard is C16's subject)",
+    "the `now` handed to async_update_records is read as part of 'called with the pairs': it has to be the datagram's arrival time, the instant "
+    "the new records are stamped with (C06:update-now) -- listeners such as the browser classify Removed by is_expired(now)",
+    "D ops reach RecordManager.async_updates_from_response directly (with the wall clock moving on after the decode); W ops go as bytes through "
+    "the real AsyncListener. Reading of 'for every response datagram' where the duplicate guard (C16's subject) is in front: every datagram that "
+    "is not byte-identical to the last *processed* datagram of the socket or arrives 1000 ms or more after it; 'arrival time' = the one clock "
+    "reading of datagram_received",
     "the harness's listeners hash to their id, so the listener set iterates in ascending id order (the model iterates the sorted list); "
     "reactions may hit one target twice and may remove listeners that are not registered",
     "a zero-TTL copy of a record that was not cached before the datagram produces no pair (the statement's 'previous is the cached copy iff one existed' "
@@ -89,8 +94,9 @@ def _reentrant(ref, info, o, now):
             in_round2 = True
             cur = {i: list(e) for i, e in ref.d.items() if i not in purged}    # the post-state, minus what round 1 purged
         if (ev[0] == "a" and ev[3][2] == 2) or ev[0] == "b":
-            # `add a listener with a question` (a scripted reaction, or a browser created by a service handler: clock = arrival time)
-            t = ev[2] if ev[0] == "a" else now
+            # `add a listener with a question` (a scripted reaction with its scripted clock reading, or a browser created by a service
+            # handler: the clock reading that creation made -- the arrival time plus the readings made since, 1 ms each)
+            t = ev[2] if ev[2] is not None else now
             ex = _expired_at(cur, t)
             nested.append((k, ex, {i: CC.spec_line(cur[i][2], cur[i][0], cur[i][1]) for i in ex}))
             for i in ex:
@@ -106,6 +112,7 @@ def _reentrant(ref, info, o, now):
 
 def oracle(probes, ops, obs, res):
     ref = CC.Ref()
+    wire = CC.WireRef()
     found = []
     prev_ids = []
     prev_t = None
@@ -114,9 +121,11 @@ def oracle(probes, ops, obs, res):
         if o["err"]:
             if k == "LR" and o["err"] == "KeyError":
                 # (only on a tree without the D18 repair) removing a listener that is not registered, outside any datagram: the call
-                # raises, nothing else happens.  The property speaks about datagrams; not reported (notes/agents/C06.md)
+                # raises, nothing else happens.  Inside the quantifier ("listeners added or removed at any point"); reported, the
+                # history ends here
+                found.append((idx, "C06:remove-absent-listener-raises", "async_remove_listener of a listener that is not registered raised KeyError"))
                 break
-            if k == "D" and o["err"] == "KeyError" and o.get("failed") and o["failed"][0][2] == 0:
+            if k in ("D", "W") and o["err"] == "KeyError" and o.get("failed") and o["failed"][0][2] == 0:
                 ph, lid, _, tg = o["failed"][0][:4]
                 lost = "before the cache was updated: no record of the datagram was added or removed, " if o["failed"][0][4] == 1 else ""
                 found.append((idx, "C06:remove-absent-listener-aborts-ingestion",
@@ -155,7 +164,11 @@ def oracle(probes, ops, obs, res):
                 if e[0] == "u" and e[1] is None and e[5] >= 1:
                     for n, _ in e[3]:
                         ref.d.pop(CC.parse_line(n)[0], None)
-        elif k == "D":
+        elif k == "W" and not C05.wire_step(found, idx, "C06", wire, op, o, res):
+            # suppressed by the duplicate guard (and rightly so): no listener may have been called
+            if o["calls"] or o["spy_u"] or o["spy_c"]:
+                found.append((idx, "C06:listener:called-for-suppressed-duplicate", "the datagram at %d was dropped by the duplicate guard, yet listeners were called (%r)" % (op[1], o["order"])))
+        elif k in ("D", "W"):
             now, recs = op[1], op[2]
             pre_lines = ref.lines()
             info = ref.datagram(now, recs)
@@ -247,8 +260,15 @@ def _check_calls(found, idx, now, o, info, post, l1, seen):
     for c in calls:
         (ucalls if c[0] == "u" else ccalls).setdefault(c[1], []).append(c)
     if not pairs:
-        if calls or o["spy_u"] or o["spy_c"]:
-            found.append((idx, "C06:called-without-updates", "the datagram at %d changes nothing, yet listeners were called (%r)" % (now, o["order"])))
+        # every record of the datagram is a goodbye of something that is not cached: nothing to tell.  The literal sentence ("every
+        # registered update listener is called exactly once ...") would have the listeners called with an empty list; the code does not
+        # call them at all (`if updates:`), which is the reading of `C06_calls` (named `C06_called_iff_effective` in Props/C06.lean).  The
+        # oracle accepts both: no call, or one update call with an empty list + one complete call per listener -- anything else is wrong
+        told = ([o["u"]] if o["u"] is not None else []) + [c[2] for c in calls if c[0] == "u"]
+        if any(t for t in told):
+            found.append((idx, "C06:called-without-updates", "no record of the datagram at %d is live or was cached, yet listeners were handed updates: %r" % (now, told[:3])))
+        elif o["spy_u"] > 1 or o["spy_c"] > 1 or any(len(v) > 1 for v in ucalls.values()) or any(len(v) > 1 for v in ccalls.values()):
+            found.append((idx, "C06:called-twice", "a listener was called more than once for the datagram at %d (%r)" % (now, o["order"])))
         return
     if o.get("legacy") is not None and o["legacy"] != [n for n, _ in (o["u"] or [])]:
         found.append((idx, "C06:legacy-update_record-shim", "a listener that only implements update_record got %r, the update list has %r"
@@ -326,7 +346,7 @@ def _check_nested(found, idx, o, nested, l1):
     for k, ex, lines in nested:
         ev = evs[k]
         if ev[0] == "b":
-            ev = ["a", ev[1], o.get("unow") or 0, [None, ev[1], 2, ev[3][1]], None, ev[5]]
+            ev = ["a", ev[1], ev[2] if ev[2] is not None else (o.get("unow") or 0), [None, ev[1], 2, ev[3][1]], None, ev[5]]
         depth = ev[5] + 1
         # the nested update calls of the listener registered throughout that belong to this reaction: up to the next act at the same depth
         told = []
@@ -471,7 +491,7 @@ def run(ctx):
     tier, seed = ctx["tier"], ctx["seed"]
     wide = 4 if ctx.get("widened") else 1
     n_random = C.Budget(tier, 550, 4500).n * wide
-    deadline = t0 + (420 if tier == "thorough" else 34) * (2.5 if wide > 1 else 1)
+    deadline = t0 + (420 if tier == "thorough" else 50) * (2.0 if wide > 1 else 1)
     run_ = CC.Runner(res, "C06", ctx, oracle)
 
     for name, probes, ops, _ in CC.corpus_histories("C06"):
@@ -483,6 +503,18 @@ def run(ctx):
     for ops in flush_window_histories():
         run_.add("flush-window", probes_r, ops)
         n_sys += 1
+
+    # datagrams as bytes through the real AsyncListener (duplicate guard, decode with the arrival time, hand-over)
+    n_wire = 0
+    for ops in CC.wire_window_histories(listeners=(1, 2)):
+        run_.add("listener-window", probes_r, ops)
+        n_wire += 1
+    rngw = C.rng_for(seed, "c06", "listener")
+    for h in range(max(20, n_random // 6)):
+        opts = {"wire": True, "listeners": [1, 2, 3], "initial_listeners": rngw.choice([1, 2]), "reacts": True, "p_repeat": rngw.choice([0.0, 0.3]),
+                "p_purge": rngw.choice([0.05, 0.15]), "p_same_payload": rngw.choice([0.3, 0.6]), "p_flush": rngw.choice([0.3, 0.6])}
+        run_.add("listener-random", probes_r, CC.gen_history(rngw, rngw.choice([6, 12, 25]), opts))
+        n_wire += 1
 
     n_re = 0
     for ops in reentrant_histories():
@@ -535,12 +567,14 @@ def run(ctx):
     res.rule = ("one evaluation = one op of a history; for every datagram: post-state per identity and flush marks vs the flat reference, and for every "
                 "recording listener (registered before, between, or from inside callbacks) the number of update/complete calls, the pairs in datagram "
                 "order with `old` rendered live, and the cache snapshots taken inside both callbacks; all of it also diffed against the Lean model. "
-                "Streams: corpus; %d systematic flush-window scenarios (sibling pairs x gap 999/1000/1001 x refresh x 6 variants); %d systematic "
+                "Streams: corpus; @NWIRE@ histories fed as bytes through the real AsyncListener (one payload 3-4 times at gaps around the 1 s "
+                "duplicate guard, and random); %d systematic flush-window scenarios (sibling pairs x gap 999/1000/1001 x refresh x 6 variants); %d systematic "
                 "re-entrancy scenarios (a record runs out unpurged x goodbye/refresh/unrelated datagram x a listener registered WITH a question from "
                 "inside the update or the complete callback x clock reading x question); every history of the "
                 "bounded plans %s (%d histories, %s); %d seeded random histories of depth 6-60 with 4 listeners and scripted reactions. "
                 "non-trivial = distinct datagram signatures (as C05) plus distinct (listeners at arrival, reactions executed, updates?)"
                 % (n_sys, n_re, [(p[0], len(p[1]), len(p[2]), p[3]) for p in plans], n_exh, "complete" if complete else "cut short", done))
+    res.rule = res.rule.replace("@NWIRE@", str(n_wire))
     res.sample({"reaction_scripts": REACT_SCRIPTS})
     res.count("wall_s", int(time.time() - t0))
     return res
